@@ -205,18 +205,43 @@ for _f in MIXING_FNS:
 
 @obligation('C06.even_callees', fns=[('src/gm2_ffunctions.cpp', 'Iabc'), ('src/gm2_numerics.cpp', 'abs_sqrt')])
 def _(ctx):
-    """callee contracts used above: Iabc(a,b,c) passes only a^2, b^2, c^2 on (Ixyz(sqr(a),sqr(b),sqr(c))); abs_sqrt(x) = sqrt(|x|)"""
+    """callee contracts used above, stated on the PUBLIC functions (independent of how their helpers are split up):
+    Iabc(a,b,c) is even in each argument -- every value that reaches the sorting step, every path condition and the result are unchanged under a -> -a, b -> -b, c -> -c;
+    abs_sqrt(x) >= 0 and abs_sqrt(x)^2 == |x|"""
+    from contracts.c02 import sorted_stub, ATOMS
     seen = []
-    it = Interp(ctx.w, mode='sym', stubs={'Ixyz': lambda i, a, t: (seen.append(a), z3.Real('I'))[1]})
+    stubs = dict(ATOMS)
+    stubs['sort'] = sorted_stub(seen)
+    it = Interp(ctx.w, mode='sym', stubs=stubs, feasibility=False)
     a, b, c = z3.Reals('a b c')
-    r = it.run_paths(lambda: it.call('Iabc', [a, b, c], file='src/gm2_ffunctions.cpp'))
-    ok = len(seen) == 1 and all(z3.is_true(z3.simplify(z3real(x) == y * y)) for x, y in zip(seen[0], (a, b, c)))
-    ctx.record('Iabc', PROVED if ok else FAILED, 'B', 0, 'Ixyz called with %s' % (seen,))
+    ps = it.run_paths(lambda: it.call('Iabc', [a, b, c], file='src/gm2_ffunctions.cpp'))
+    ctx.merge_rules(it)
+    exprs = [z3real(x) for call in seen for x in call]
+    for s_, r, e in ps:
+        exprs += list(s_.pc) + ([z3real(r)] if r is not None and is_sym(r) else [])
+    bad = []
+    for v in (a, b, c):
+        for e in exprs:
+            e2 = z3.substitute(e, (v, -v))
+            same = z3.is_true(z3.simplify(e2 == e))
+            if not same:
+                s = z3.Solver(); s.set('timeout', 5000); s.add(z3.Not(e2 == e))
+                same = s.check() == z3.unsat
+            if not same:
+                bad.append('%s changes under %s -> -%s' % (str(e)[:120], v, v))
+    ok = bool(ps) and bool(seen) and not bad
+    ctx.record('Iabc', PROVED if ok else FAILED, 'B', 0, '%d paths, %d values reach the sorting step; %s' % (len(ps), len(exprs), bad[0] if bad else 'all even in a, b, c'))
     it2 = Interp(ctx.w, mode='sym')
     x = z3.Real('x')
     ps = it2.run_paths(lambda: it2.call('abs_sqrt', [x], file='src/gm2_numerics.cpp'))
-    ok2 = len(ps) == 1 and 'sqrt(If(' in str(ps[0][1])
-    ctx.record('abs_sqrt', PROVED if ok2 else FAILED, 'B', 0, 'abs_sqrt(x) = %s' % (ps[0][1] if ps else None))
+    ctx.merge_rules(it2)
+    for k, (s_, r, e) in enumerate(ps):
+        if e is not None or r is None:
+            ctx.record('abs_sqrt.path%d' % k, FAILED, 'B', 0, 'no value: %s' % e)
+            continue
+        ctx.prove('abs_sqrt.path%d' % k, list(s_.pc) + list(s_.axioms), z3.And(z3real(r) >= 0, z3real(r) * z3real(r) == z3.If(x >= 0, x, -x)), check_vacuity=False)
+        ctx.sides('abs_sqrt.path%d' % k, s_, [])
+    ctx.record('abs_sqrt.paths', PROVED if ps else ERROR, 'B', 0, '%d paths' % len(ps))
 
 @obligation('C06.mass_matrices', fns=[(ME, 'MSSMNoFV_onshell_mass_eigenstates::get_mass_matrix_' + n) for n in ('Sd', 'Su', 'Se', 'Sm', 'Stau', 'Ss', 'Sc', 'Sb', 'St', 'Cha', 'Chi', 'hh', 'Ah', 'Hpm', 'SvmL', 'VWm', 'VZ')])
 def _(ctx):
